@@ -15,7 +15,7 @@ verus! {
 
 //@INCLUDE prelude.inc
 
-//@INCLUDE mb.inc
+//@INCLUDE mb_spec.inc
 
 //@INCLUDE rice.inc
 
